@@ -40,7 +40,7 @@ COLLECTION_TYPES = {
     "shades": "types::opaques::Shade", "thermal_bridges": "types::thermalbridge::ThermalBridge",
     "cons.wallcons": "types::constructions::WallCons", "cons.wincons": "types::constructions::WinCons",
     "cons.materials": "types::constructions::Material", "cons.glasses": "types::constructions::Glass",
-    "cons.frames": "types::constructions::Frame", "loads": "types::space::SpaceLoads",
-    "thermostats": "types::space::SpaceSysConditions", "schedules.year": "types::schedules::Schedule",
+    "cons.frames": "types::constructions::Frame", "loads": "types::space_loads::SpaceLoads",
+    "thermostats": "types::thermostat::Thermostat", "schedules.year": "types::schedules::Schedule",
     "schedules.week": "types::schedules::ScheduleWeek", "schedules.day": "types::schedules::ScheduleDay",
 }
